@@ -163,6 +163,7 @@ def run(tier, seed):
                  dict(ncls=3, n=75, split=0.8, even=True, dimwise=True, lump=True, lam=0.0, range=True)]
     traces = []
     nseq = 5 if tier == 'quick' else 15
+    partner = None      # a second classifier (learned for the previous case) stays alive and is used in between: objects must not share state
     for c in cfgs:
         for s in range(nseq):
             try:
@@ -184,6 +185,16 @@ def run(tier, seed):
                 kind = rng.choice(['call', 'test', 'test', 'call'])
                 bk = rng.choice(['inside', 'mixed', 'mixed', 'outside', 'labelled-only'])
                 X, y = make_batch(rng, bk, lo, hi, c['ncls'], rng.randint(3, 8))
+                if partner is not None and rng.random() < 0.5:
+                    pclf, plo, phi, pn = partner
+                    try:
+                        PX, Py = make_batch(rng, 'mixed', plo, phi, pn, 5)
+                        with impl.quiet(), impl.watchdog(120):
+                            (pclf.test_data if rng.random() < 0.5 else pclf)(DataSet((np.array(PX), np.array(Py)), name='partner'), print_removed=False)
+                    except impl.Timeout:
+                        raise
+                    except Exception:
+                        pass      # the partner's own behaviour is judged in its own trace
                 e = record_call(clf, kind, X, y, lo, hi, None)
                 evs.append(e)
                 script.append([kind, bk])
@@ -205,6 +216,7 @@ def run(tier, seed):
                     rep.violation('C19_SummaryConsistent', {'field': 'percentage', 'event': e['k']}, {'config': c, 'calls': script, 'failing_event': i + 1, 'summary': e['summary'], 'percentage': pct},
                                   what='%s: percentage %r does not match wrong/total %s' % (c, pct, e['summary']))
             traces.append({'events': evs, '_cfg': c, '_script': script})
+            partner = (clf, lo, hi, c['ncls'])
             rep.count(1, key=json.dumps([c, script, s]))
             rep.sample({'config': c, 'calls': script, 'learned_range': [lo.tolist(), hi.tolist()]}, limit=3)
     clean = [{'events': [{k: v for k, v in e.items() if not k.startswith('_')} for e in t['events']]} for t in traces]
